@@ -8,6 +8,7 @@ import os
 
 from ..common import Report, main_wrapper, scratch, eff_seed, run_tlc, MachineryError, tlc_failure_excerpt
 from .. import purity
+from ..testrec import add_test_edges
 from .args import parse
 
 MODULES = ["harness.corpus.basic", "harness.corpus.shapes", "harness.corpus.configs", "harness.corpus.memory"]
@@ -21,6 +22,16 @@ def main():
     recs = purity.run(MODULES, eff_seed(), sessions=1 if quick else 12, length=12 if quick else 30, select=sel,
                       sweep=80 if quick else 100000)
     with scratch() as d:
+        if not a.only:
+            # the repository's own tests as sessions: one event per Procedure they create, one when the test ends
+            _, other = add_test_edges(rep, a.tier, d, fwd=False, units=False, purity=True)
+            n_ts = 0
+            for o in other:
+                if o.get("kind") == "session":
+                    n_ts += 1
+                    recs.append({"prog": "repo:" + o["file"] + "::" + o["test"].split("::")[-1], "session": "test",
+                                 "trace": o["trace"], "meta": o["meta"], "texts": [""]})
+            rep.add_cov(repo_test_sessions=n_ts)
         path = os.path.join(d, "sessions.json")
         with open(path, "w") as f:
             json.dump([r["trace"] for r in recs], f)
@@ -57,7 +68,9 @@ def main():
                        "partial rewriting), interleaved with prints, forwards and (every third session) C generation; after every "
                        "operation every live Procedure (deep structural fingerprint incl. all lists and callees, printed text, C "
                        "text) and every live cursor (path, denoted node) is re-fingerprinted; TLC consumes an event only if "
-                       "Immutable, CursorsStable and 'a failing operation defines nothing' hold")
+                       "Immutable, CursorsStable and 'a failing operation defines nothing' hold; plus one session per test of the "
+                       "repository's own test files (every Procedure the test creates re-fingerprinted after each creation and at "
+                       "test end) and one per file for the procedures created at import time")
     rep.assumptions += ["module-level caches are observed only through later results"]
     return rep.finish()
 
